@@ -114,6 +114,7 @@ def hazards(ctx: Ctx, funcs, clause: str = "S0"):
     from rules.alias import aliasing_cache_stores
     from rules.excmatch import ArgcheckRaises, mismatched_handlers
     from rules.boundary import length_equals_position
+    from rules.deadformal import dead_formals
     from sa.astutil import u
     col = ctx.col
     n = 0
@@ -180,6 +181,10 @@ def hazards(ctx: Ctx, funcs, clause: str = "S0"):
                        (f"`{u(bcs[0]['node'])}` caches {bcs[0]['why']} by reference: after an in-place edit by the caller the "
                         f"validity test compares the object with itself and a stale result is served") if bcs else "", rel,
                        bcs[0]["node"].lineno if bcs else f.line, sample=[(x["attr"], x["why"]) for x in cs], nontrivial=False)
+        df = dead_formals(f)
+        col.ob("G33", clause, f"{where}::every-accepted-option-is-read", not df,
+               (f"`{df[0]}` is accepted by {f.qualname} but nothing in its body reads it: whatever the caller passes is silently "
+                f"ignored (a call inside lost the argument)") if df else "", rel, f.line, nontrivial=False)
         vt = vacuous_rank_tests(f)
         if vt:
             col.ob("G32", clause, f"{where}::no-vacuous-rank-test", False,
